@@ -77,6 +77,9 @@ def scanner_correspondence(model, text, label):
     by the oracle: check-express reads the same text and the declarations compare equal.)"""
     if len(SCAN["problems"]) >= 3:
         return
+    SCAN["calls"] = SCAN.get("calls", 0) + 1
+    if SCAN["calls"] % SCAN.get("every", 1):
+        return                      # quick tier: every 4th output
     spans = []
     try:
         toks = X.lex(text, spans)
@@ -366,6 +369,20 @@ def decl_syntax_correspondence(ctx, model, toks_src, toks_out, src):
             want = "D " + D.collapse_entity(eo[key[1]]) + " | roundtrip-ok"
             if rep != want:
                 ctx.corr_problems.append(("decl-syntax", f"ENTITY {key[1]}: exppp `{want[2:]}` vs model `{rep[2:]}`", src)); return
+        pout = D.P(toks_out); pout.schema()
+        spans = {}
+        for key, a0, b0 in pout.body_spans:
+            spans.setdefault(key, toks_out[a0:b0])
+        seen = set()
+        for key, body in D.algorithm_bodies(D.parse_schema(toks_src)):
+            if key in seen or key not in spans:
+                continue
+            seen.add(key)
+            rep = model.ask("stmts " + D.enc_stmts(body))
+            ctx.hist("correspondence", "declaration syntax: statement list")
+            want = "D " + D.collapse_stmts(spans[key]) + " | roundtrip-ok"
+            if rep != want:
+                ctx.corr_problems.append(("decl-syntax", f"statements of {key[0]} {key[1]}: exppp `{want[2:]}` vs model `{rep[2:]}`", src)); return
     except (D.DeclError, KeyError, IndexError) as ex:
         ctx.corr_problems.append(("decl-syntax", f"cannot compare declaration syntax: {type(ex).__name__} {ex}", src))
 
@@ -665,7 +682,7 @@ def run(ctx):
     ctx.corr_problems = []
     proof_ok = ctx.lean(PROPS, exes=["m_c07"], extractors=["expprec"])
     proof_ok = ctx.lean(PROPS_LEX) and proof_ok          # character level: layout engine x scanner model
-    SCAN.update({"runs": 0, "tokens": 0, "skipped": 0, "problems": []})
+    SCAN.update({"runs": 0, "tokens": 0, "skipped": 0, "problems": [], "calls": 0, "every": 4 if ctx.tier == "quick" else 1})
     exe = ensure_exe(ctx)
     b = ctx.build("plain")
     if exe is None:
